@@ -1,4 +1,6 @@
-/- Tie: every regex.* call site in functions.py passes timeout=REGEX_TIMEOUT and the constant is 50 ms. -/
+/- Tie: every call into a regular-expression engine anywhere in the package goes to the third-party `regex` module (the one
+   with a timeout) and passes timeout=REGEX_TIMEOUT; there is at least one such call; the constant is 50 ms.  Which function
+   of the package makes the call, and how many there are, is not part of the tie. -/
 import SqGen.Generated
 import Sq.Builtins
 namespace SqTie
@@ -6,8 +8,6 @@ namespace SqTie
 theorem regex_timeout_tie : SqGen.regexTimeoutMicros = some Sq.regexTimeoutMicros := by decide
 
 theorem regex_sites_tie :
-    SqGen.regexCallSites =
-      [("_match", "search", "REGEX_TIMEOUT"), ("_match_groups", "search", "REGEX_TIMEOUT"),
-       ("_match_all", "findall", "REGEX_TIMEOUT")] := by decide
+    SqGen.regexCallSites ≠ [] ∧ ∀ s ∈ SqGen.regexCallSites, s.1 = "regex" ∧ s.2.2 = "REGEX_TIMEOUT" := by decide
 
 end SqTie
